@@ -174,6 +174,8 @@ def register(chk):
     c03_portable.register(chk)
     import c03_a64
     c03_a64.register(chk)      # AArch64 back end (interpreter over the assembled instruction stream; no native replay on this host)
+    import c03_t1
+    c03_t1.register(chk)       # ARMv6-M (Thumb-1) back end (interpreter over the macro-expanded GNU-as sources, cross-checked against clang's assembler)
 
 
 def main(argv=None):
@@ -197,6 +199,8 @@ def main(argv=None):
     chk.trusted = ["T1: Montgomery uniqueness", "x86-64 instruction semantics as implemented in engine/easm_x86.py (add/adc/sub/sbb/mul/mulx/adcx/adox/imul/flags)",
                    "clang's integrated assembler and llvm-objdump", "z3 linear integer arithmetic"]
     chk.assumptions = ["operands of fpbase kernels are < p (class invariant, established by C02)", "reduction input < p*2^384"]
+    import c03_t1
+    c03_t1.annotate(chk)
     chk.run()
     chk.finish()
 
